@@ -68,3 +68,35 @@ fn(N + "_do_commit", cls="NTx", props=["C23"], types=TY, returns="none",
    # a failed RELEASE leaves the handle inactive (it must not emit SQL when rolled back) but still current
    exc_ensures={"BaseException": ["implies(old(self.is_active), not self.is_active)"]},
    modifies=["self.is_active", "self.connection._nested_transaction"])
+
+
+# ---- the chain is built by NestedTransaction.__init__: pushing a handle keeps the savepoint stack well formed
+def CHAIN_OF(c, head, conn):
+    """clauses: sequence `c` is the chain of handle `head` (on connection `conn`)"""
+    return [f"len({c}) >= 1 and {c}[0] is {head}",
+            f"all(isinst({c}[j], NTx) and {c}[j] is not None for j in range(len({c})))",
+            f"all({c}[j]._previous_nested is {c}[j + 1] for j in range(len({c}) - 1))",
+            f"{c}[len({c}) - 1]._previous_nested is None",
+            f"no_dups({c})",
+            f"all({c}[j].connection is {conn} for j in range(len({c})))"]
+
+
+fn(N + "__init__", cls="NTx", props=["C23"], returns="none",
+   types=dict(TY, chain0="seq", connection="ConnN", **{"expr:chain0[j]": "NTx", "expr:chain0[j + 1]": "NTx", "expr:chain0[len(chain0) - 1]": "NTx", "expr:chain0[0]": "NTx"}),
+   callees={"TransactionalContext._trans_ctx_check": "noop", "self.connection._savepoint_impl": "havoc:v"},
+   # chain0 (ghost): the chain of the connection's current savepoint, empty when there is none; self is a new handle
+   requires=["connection._transaction is not None", "self not in chain0",
+             "implies(connection._nested_transaction is None, len(chain0) == 0)",
+             "implies(connection._nested_transaction is not None, " + " and ".join("(" + c + ")" for c in CHAIN_OF("chain0", "connection._nested_transaction", "connection")) + ")"],
+   # [self] + chain0 is the new chain: self is its head, linked to the old head (or None), on the same connection, not in chain0;
+   # and chain0 is still the chain of the old head (nothing in it was touched)
+   ensures=["connection._nested_transaction is self", "self.is_active", "self._previous_nested is old(connection._nested_transaction)",
+            "self.connection is connection", "self not in chain0",
+            "implies(len(chain0) > 0, self._previous_nested is chain0[0])", "implies(len(chain0) == 0, self._previous_nested is None)",
+            "implies(len(chain0) > 0, " + " and ".join("(" + c + ")" for c in CHAIN_OF("chain0", "old(connection._nested_transaction)", "connection")) + ")"],
+   may_raise={"BaseException": "True"},
+   # a failing SAVEPOINT statement leaves the stack as it was
+   exc_ensures={"BaseException": ["connection._nested_transaction is old(connection._nested_transaction)"]},
+   modifies=["self.connection", "self._savepoint", "self.is_active", "self._previous_nested", "connection._nested_transaction"])
+import pyvc.contract as _pcn  # noqa: E402
+_pcn.CLASSES["ConnN"].fields["_trans_context_manager"] = "v"
